@@ -203,6 +203,18 @@ class Evaluator:
             q = f"{base[1]}.{e.attr}"
             q2 = self.repo._follow(q)
             return self._global(q2)
+        # field of a freshly constructed (data)class instance: Carry(a, b, c).epoch -> c
+        if base[0] == "call" and base[1][0] == "g" and base[1][1] in self.repo.classes:
+            ci = self.repo.classes[base[1][1]]
+            fields = ci.annotated_fields()
+            if e.attr in fields and ci.own_method("__init__") is None \
+                    and not any(t[0] == "star" for t in base[2]):
+                for k, v in base[3]:
+                    if k == e.attr:
+                        return v
+                i = fields.index(e.attr)
+                if i < len(base[2]):
+                    return base[2][i]
         loc = ("a", base, e.attr)
         if loc in self.env.heap and e.attr not in self.repo.property_names:
             # (a store through a property setter is not a plain field write: a later
